@@ -27,6 +27,9 @@ type ReadWriter interface {
 	Close() error
 
 	Size() (int64, error)
+
+	// Truncate 将文件截断到指定大小, 用于丢弃崩溃后残缺的尾部数据
+	Truncate(size int64) error
 }
 
 // NewReadWriter 根据配置创建具体的文件 IO 实现
